@@ -192,7 +192,7 @@ def replay(ctx, lines, out, warn, style_idx, pid='C10'):
 def run(ctx):
     quick = ctx.tier == 'quick'
     n = 0
-    for files in (('FilesQuick' if quick else 'FilesState4'), 'FilesLex'):
+    for files in (('FilesQuick' if quick else 'FilesState4'), 'FilesLex', 'FilesSpell'):
         res = tlc.run('MC_Ds9', cfg_text=CFG.format(files=files), dump=True, tag='c10', timeout=3000)
         ctx.tlc(res, f'MC_Ds9 {files}')
         if res.violated:
@@ -209,8 +209,11 @@ def run(ctx):
             bad = replay(ctx, lines, st['s']['out'], st['s']['warn'], idx)
             if files == 'FilesLex' and not bad:
                 replay(ctx, lines, st['s']['out'], st['s']['warn'], idx + 1)
+            if files == 'FilesSpell':         # every spelling in every style
+                for extra in range(1, len(ds9text.STYLES)):
+                    replay(ctx, lines, st['s']['out'], st['s']['warn'], idx + extra)
             if not bad and k % 1201 == 1:
-                ctx.sample({'text': ds9text.render(lines, ds9text.STYLES[idx % 5]), 'regions': st['s']['out']})
+                ctx.sample({'text': ds9text.render(lines, ds9text.STYLES[idx % len(ds9text.STYLES)]), 'regions': st['s']['out']})
         n += k
         ctx.note(f'replayed_{files}', k)
         tlc.cleanup(res.workdir)
@@ -280,13 +283,13 @@ def trace_validation(ctx):
                 if rnd.random() < 0.15:
                     pr['include'] = rnd.choice(['0', '1'])
                 lines.append({'k': 'region', 'shape': shape, 'sign': rnd.choice(['', '', '+', '-']), 'toks': toks, 'props': pr, 'cont': False})
-        text = ds9text.render(lines, ds9text.STYLES[t % 5])
+        text = ds9text.render(lines, ds9text.STYLES[t % len(ds9text.STYLES)])
         try:
             regs, nskip = parse_real(text)
         except Exception as ex:  # noqa
             ctx.violation(f'C10|trace|raises|{type(ex).__name__}', f'parsing a generated file raised {ex!r}', {'text': text})
             continue
-        record_steps(lines, ds9text.STYLES[t % 5], text)
+        record_steps(lines, ds9text.STYLES[t % len(ds9text.STYLES)], text)
         events.append({'file': lines, 'warn': nskip, 'out': [observe(r) for r in regs], 'text': text})
     wd = tlc.workdir('c10trace')
     path = os.path.join(wd, 'events.json')
